@@ -14,6 +14,7 @@ import (
 
 	"golang.org/x/tools/go/callgraph"
 	"golang.org/x/tools/go/callgraph/cha"
+	"golang.org/x/tools/go/callgraph/vta"
 	"golang.org/x/tools/go/packages"
 	"golang.org/x/tools/go/ssa"
 	"golang.org/x/tools/go/ssa/ssautil"
@@ -41,6 +42,7 @@ type Global struct {
 	curInRepo bool
 	constGlobals map[*ssa.Global]*ssa.Const
 	nonNilGlobals map[*ssa.Global]bool
+	rtTypes  []types.Type
 }
 
 type writeSet struct {
@@ -452,7 +454,7 @@ func (g *Global) callGraph() *callgraph.Graph {
 	g.mu.Lock()
 	defer g.mu.Unlock()
 	if g.cg == nil {
-		g.cg = cha.CallGraph(g.prog)
+		g.cg = vta.CallGraph(g.allFns, cha.CallGraph(g.prog))
 	}
 	return g.cg
 }
@@ -513,9 +515,31 @@ func (g *Global) directWrites(fn *ssa.Function) *writeSet {
 	return ws
 }
 
+// freshBase reports whether the address/slice/map value v is derived, within its function, from an
+// allocation made by that same function (so a write through it cannot touch pre-existing objects).
+func freshBase(v ssa.Value, depth int) bool {
+	if depth > 8 {
+		return false
+	}
+	switch a := v.(type) {
+	case *ssa.Alloc, *ssa.MakeSlice, *ssa.MakeMap:
+		return true
+	case *ssa.FieldAddr:
+		return freshBase(a.X, depth+1)
+	case *ssa.IndexAddr:
+		return freshBase(a.X, depth+1)
+	case *ssa.Slice:
+		return freshBase(a.X, depth+1)
+	}
+	return false
+}
+
 func (g *Global) addrKeys(v ssa.Value, ws *writeSet, depth int) {
 	if depth > 6 {
 		ws.all = true
+		return
+	}
+	if freshBase(v, 0) {
 		return
 	}
 	switch a := v.(type) {
@@ -635,25 +659,18 @@ func (g *Global) instrDirect(in ssa.Instruction, ws *writeSet) {
 	case *ssa.Store:
 		g.addrKeys(x.Addr, ws, 0)
 	case *ssa.MapUpdate:
-		g.mapKeysW(x.Map.Type().Underlying().(*types.Map), ws)
+		if !freshBase(x.Map, 0) {
+			g.mapKeysW(x.Map.Type().Underlying().(*types.Map), ws)
+		}
 		ws.keys["$alloc"] = true
 	case *ssa.Alloc:
 		if x.Heap || isStruct(x.Type().(*types.Pointer).Elem()) {
 			ws.keys["$alloc"] = true
-			g.addrKeys(x, ws, 0)
-			if isStruct(x.Type().(*types.Pointer).Elem()) {
-				g.structKeys(x.Type().(*types.Pointer).Elem(), ws)
-			}
 		}
-	case *ssa.MakeMap:
-		g.mapKeysW(x.Type().Underlying().(*types.Map), ws)
-		ws.keys["$alloc"] = true
-	case *ssa.MakeSlice:
-		g.elemKeys(x.Type().Underlying().(*types.Slice).Elem(), ws)
+	case *ssa.MakeMap, *ssa.MakeSlice:
 		ws.keys["$alloc"] = true
 	case *ssa.MakeInterface:
 		if isStruct(x.X.Type()) {
-			g.structKeys(x.X.Type(), ws)
 			ws.keys["$alloc"] = true
 		}
 	case *ssa.MakeClosure:
@@ -668,7 +685,7 @@ func (g *Global) instrDirect(in ssa.Instruction, ws *writeSet) {
 		if b, ok := c.Value.(*ssa.Builtin); ok {
 			switch b.Name() {
 			case "append", "copy":
-				if sl, ok := c.Args[0].Type().Underlying().(*types.Slice); ok {
+				if sl, ok := c.Args[0].Type().Underlying().(*types.Slice); ok && !freshBase(c.Args[0], 0) {
 					g.elemKeys(sl.Elem(), ws)
 				}
 				ws.keys["$alloc"] = true
@@ -729,19 +746,45 @@ func (g *Global) fnWrites(fn *ssa.Function) (map[string]bool, bool) {
 			res.keys[k] = true
 		}
 		res.all = res.all || dw.all
-		if n := cg.Nodes[f]; n != nil {
-			for _, e := range n.Out {
-				if e.Callee != nil && e.Callee.Func != nil {
-					stack = append(stack, e.Callee.Func)
-				}
-			}
-		}
+		stack = append(stack, g.targetsLocked(cg, f)...)
 	}
 	g.writes[fn] = res
 	return res.keys, res.all
 }
 
 func (g *Global) mayCallBack(f *ssa.Function) bool { return true }
+
+// targetsLocked lists the functions whose effects a call from f may have, per call site, using the
+// argument-type specialisation for library calls and the VTA call graph otherwise.
+func (g *Global) targetsLocked(cg *callgraph.Graph, f *ssa.Function) []*ssa.Function {
+	var out []*ssa.Function
+	special := map[ssa.CallInstruction]bool{}
+	for _, b := range f.Blocks {
+		for _, in := range b.Instrs {
+			ci, ok := in.(ssa.CallInstruction)
+			if !ok {
+				continue
+			}
+			if callee := ci.Common().StaticCallee(); callee != nil {
+				if g.specialiseLibCall(callee, ci.Common(), func(m *ssa.Function) { out = append(out, m) }) {
+					special[ci] = true
+				}
+			}
+		}
+	}
+	if n := cg.Nodes[f]; n != nil {
+		for _, e := range n.Out {
+			if e.Callee == nil || e.Callee.Func == nil {
+				continue
+			}
+			if e.Site != nil && special[e.Site] {
+				continue
+			}
+			out = append(out, e.Callee.Func)
+		}
+	}
+	return out
+}
 
 func (g *Global) unitForLocked(fn *ssa.Function) *Unit {
 	if fn.Pkg == nil {
@@ -968,6 +1011,9 @@ func (g *Global) callWrites(fn *ssa.Function, c *ssa.CallCommon) (map[string]boo
 		all = all || a
 	}
 	if callee := c.StaticCallee(); callee != nil {
+		if g.specialiseLibCall(callee, c, add) {
+			return res, all
+		}
 		add(callee)
 		return res, all
 	}
@@ -1001,6 +1047,72 @@ func (g *Global) callWrites(fn *ssa.Function, c *ssa.CallCommon) (map[string]boo
 	}
 	return res, all
 }
+
+// specialiseLibCall: a library function whose parameters are scalars, strings, byte slices and interfaces
+// affects verified state only through the methods of the dynamic types of its interface arguments
+// (parametricity assumption, listed in evidence). When every interface argument at this call site is a
+// MakeInterface of a concrete type, the effects are those of that type's methods.
+func (g *Global) specialiseLibCall(callee *ssa.Function, c *ssa.CallCommon, add func(*ssa.Function)) bool {
+	if callee.Pkg == nil || g.inRepo(callee.Pkg.Pkg) || len(callee.Blocks) == 0 || g.unitFor(callee) != nil || g.isPureLib(callee) {
+		return false
+	}
+	type conc struct {
+		t types.Type
+		i *types.Interface
+	}
+	var concrete []conc
+	for _, a := range c.Args {
+		switch u := a.Type().Underlying().(type) {
+		case *types.Basic:
+		case *types.Slice:
+			if _, ok := u.Elem().Underlying().(*types.Basic); !ok {
+				return false
+			}
+		case *types.Interface:
+			v := a
+			for {
+				if ci, ok := v.(*ssa.ChangeInterface); ok {
+					v = ci.X
+					continue
+				}
+				break
+			}
+			mi, ok := v.(*ssa.MakeInterface)
+			if !ok {
+				if cst, isC := v.(*ssa.Const); isC && cst.Value == nil {
+					continue // nil interface
+				}
+				return false
+			}
+			concrete = append(concrete, conc{mi.X.Type(), u})
+		default:
+			return false
+		}
+	}
+	for _, ct := range concrete {
+		ms := g.prog.MethodSets.MethodSet(ct.t)
+		for i := 0; i < ms.Len(); i++ {
+			name := ms.At(i).Obj().Name()
+			inIface := false
+			for j := 0; j < ct.i.NumMethods(); j++ {
+				if ct.i.Method(j).Name() == name {
+					inIface = true
+				}
+			}
+			if !inIface && !optionalIfaceMethods[name] {
+				continue
+			}
+			if m := g.prog.MethodValue(ms.At(i)); m != nil {
+				add(m)
+			}
+		}
+	}
+	return true
+}
+
+var optionalIfaceMethods = map[string]bool{"WriteTo": true, "ReadFrom": true, "Close": true, "Flush": true, "String": true,
+	"Error": true, "Len": true, "ReadByte": true, "WriteString": true, "WriteByte": true, "UnreadByte": true, "Unwrap": true}
+
 
 func (g *Global) noteUse(vc *FnVC, u *Unit, calleeKey string) {
 	if vc.unit == nil {
